@@ -18,7 +18,7 @@ from hypothesis import strategies as st
 # ----------------------------------------------------------------------------------------
 CONV_OPS = ('conv1d', 'conv2d')
 LAYER_OPS = ('conv1d', 'conv2d', 'linear')
-ELEMWISE = ('relu', 'relu6', 'dropout', 'identity')
+ELEMWISE = ('relu', 'relu6', 'dropout', 'identity', 'flatten_hw')   # channel-preserving, one input
 
 
 def is_dw(node) -> bool:
@@ -65,6 +65,9 @@ def infer_shapes(spec) -> Dict[str, Tuple[int, ...]]:
             sh[n['id']] = (n['cout'],) + conv2d_out((H, W), k, s, p, d)
         elif op == 'linear':
             sh[n['id']] = (n['cout'],)
+        elif op == 'flatten_hw':
+            # x.flatten(2): (C, H, W) -> (C, H*W); the bridge from a 2-D to a 1-D trunk
+            sh[n['id']] = (a[0][0], math.prod(a[0][1:]))
         elif op in ELEMWISE or op == 'bn':
             sh[n['id']] = a[0]
         elif op in ('avgpool', 'maxpool'):
@@ -184,6 +187,8 @@ def make_layer(node, cin: int, family: str):
         mods[''] = nn.AdaptiveAvgPool1d(1) if family == '1d' else nn.AdaptiveAvgPool2d(1)
     elif op == 'flatten' and node.get('variant', 'mod') == 'mod':
         mods[''] = nn.Flatten()
+    elif op == 'flatten_hw' and node.get('variant', 'mod') == 'mod':
+        mods[''] = nn.Flatten(2)
     return mods
 
 
@@ -234,6 +239,10 @@ def _forward_impl(self, env):
             v = src.get('variant', 'mod')
             env[nid] = (self.layers[sid](a[0]) if v == 'mod' else
                         a[0].flatten(1) if v == 'method' else torch.flatten(a[0], 1))
+        elif op == 'flatten_hw':
+            v = src.get('variant', 'mod')
+            env[nid] = (self.layers[sid](a[0]) if v == 'mod' else
+                        a[0].flatten(2) if v == 'method' else torch.flatten(a[0], start_dim=2))
         elif op == 'squeeze':
             v = src.get('variant', 'method')
             dim = src.get('dim', -1)
@@ -268,6 +277,8 @@ def _classes():
                     self.layers[n['id']] = sn_factory(n, shapes[n['in'][0]], wseed)
                     continue
                 cin = shapes[n['in'][0]][0]
+                # 1-D / 2-D flavour of BN and pooling follows the rank of the tensor they get
+                fam = '2d' if len(shapes[n['in'][0]]) == 3 else '1d'
                 for suffix, m in make_layer(n, cin, fam).items():
                     init_module(m, wseed, n['id'] + suffix)
                     self.layers[n['id'] + suffix] = m
@@ -487,7 +498,7 @@ class Profile:
                  max_blocks=4, max_c=6, kmax=9, bn=True, pool=True, two_d_k=(1, 3, 5),
                  linear_tail=True, strides=(1, 2), dil=(1, 2, 3), cat_input=True,
                  conv2d_pad0=True, act_variants=True, min_blocks=1, first_conv=False,
-                 dropout=True):
+                 dropout=True, bridge=False):
         self.__dict__.update(locals())
         del self.__dict__['self']
 
@@ -542,7 +553,7 @@ class _B:
         kw = dict(cout=cout, bias=bias, bn=bn, groups=C if dw else 1)
         if p.exclude and allow_excl and not dw and d(st.integers(0, 4)) == 0:
             kw['excl'] = True
-        if p.family == '1d':
+        if len(self.shapes[t]) == 2:
             L = self.shapes[t][1]
             pad = d(st.sampled_from(p.pads))
             stride = 1
@@ -646,8 +657,10 @@ def netspecs(draw, prof: Profile):
             choices += ['res_id', 'res_proj']
         if p.cat:
             choices += ['cat', 'cat']
-        if p.cat_t and p.family == '1d':
+        if p.cat_t and len(b.shapes[t]) == 2:
             choices.append('cat_t')
+        if p.bridge and len(b.shapes[t]) == 3:
+            choices.append('bridge')
         if p.standalone_bn:
             choices.append('bn')
         if p.reuse:
@@ -660,6 +673,9 @@ def netspecs(draw, prof: Profile):
             t = b.maybe_act(t)
         elif kind == 'act':
             t = b.act(t)
+        elif kind == 'bridge':
+            # 2-D trunk -> 1-D trunk: only the spatial axes are merged, channels stay channels
+            t = b.add('flatten_hw', [t], variant=draw(st.sampled_from(['mod', 'method', 'torch'])))
         elif kind == 'pool':
             t = b.add(draw(st.sampled_from(['avgpool', 'maxpool'])), [t])
         elif kind == 'bn':
@@ -750,7 +766,7 @@ def netspecs(draw, prof: Profile):
             how = draw(st.sampled_from(['flatten', 'gap_flatten', 'gap_squeeze']))
             if how != 'flatten':
                 t = b.add('gap', [t])
-            if how == 'gap_squeeze' and p.family == '1d':
+            if how == 'gap_squeeze' and len(b.shapes[t]) == 2:
                 t = b.add('squeeze', [t], dim=draw(st.sampled_from([-1, 2])),
                           variant=draw(st.sampled_from(['method', 'torch'])))
             else:
@@ -774,7 +790,7 @@ def spec_features(spec) -> List[str]:
     """Labels describing what a spec contains (for the event histogram)."""
     ops = [n['op'] for n in spec['nodes']]
     ev = []
-    for o in ('add', 'cat', 'cat_t', 'flatten', 'squeeze', 'reuse', 'bn', 'linear', 'avgpool',
+    for o in ('add', 'cat', 'cat_t', 'flatten', 'flatten_hw', 'squeeze', 'reuse', 'bn', 'linear', 'avgpool',
               'maxpool'):
         if o in ops:
             ev.append('has:' + o)
